@@ -14,6 +14,7 @@ import (
 )
 
 type State struct {
+	held   map[string]string // lock decl key + "@" + owner term -> "w" | "r"
 	reach  Term
 	snap   *Snapshot
 	env    map[string]TV // source variable name -> current value
@@ -22,7 +23,10 @@ type State struct {
 }
 
 func (s *State) clone() *State {
-	n := &State{reach: s.reach, snap: s.snap.clone(), env: map[string]TV{}, addr: map[string]TV{}}
+	n := &State{reach: s.reach, snap: s.snap.clone(), env: map[string]TV{}, addr: map[string]TV{}, held: map[string]string{}}
+	for k, x := range s.held {
+		n.held[k] = x
+	}
 	for k, x := range s.env {
 		n.env[k] = x
 	}
@@ -318,6 +322,12 @@ func (v *FV) modifiedIn(fr *Frame, blocks map[*ssa.BasicBlock]bool) map[string]b
 						d, val := v.mapArrays(m)
 						mod[d], mod[val], mod[v.mapLenArray()] = true, true, true
 					}
+				case *ssa.Next:
+					if rg, ok := in.Iter.(*ssa.Range); ok {
+						if m, ok := rg.X.Type().Underlying().(*types.Map); ok {
+							mod[v.rangeVisitedArray(m)] = true
+						}
+					}
 				case *ssa.Go:
 					all = true
 				case ssa.CallInstruction:
@@ -495,7 +505,7 @@ func (v *FV) execBody(fr *Frame, entry *State) []Exit {
 			for _, in := range ins {
 				conds = append(conds, in.cond)
 			}
-			st = &State{env: map[string]TV{}, addr: map[string]TV{}}
+			st = &State{env: map[string]TV{}, addr: map[string]TV{}, held: map[string]string{}}
 			if len(conds) == 1 {
 				st.reach = conds[0]
 			} else {
@@ -529,6 +539,20 @@ func (v *FV) execBody(fr *Frame, entry *State) []Exit {
 				}
 				if same {
 					st.addr[name] = tv
+				}
+			}
+			st.held = map[string]string{}
+			for k, m := range ins[0].st.held {
+				keep := true
+				for _, in := range ins[1:] {
+					if om, ok := in.st.held[k]; !ok {
+						keep = false
+					} else if om == "r" {
+						m = "r"
+					}
+				}
+				if keep {
+					st.held[k] = m
 				}
 			}
 			// defers: take the longest (conditions are recorded per defer)
@@ -902,6 +926,9 @@ func (v *FV) execInstr(fr *Frame, st *State, instr ssa.Instruction) {
 		if l.kind == 2 || l.kind == 4 {
 			v.oblige("nil", "", posStr(v.eng.fset, in.Pos()), "nil dereference", st.reach, fmt.Sprintf("(not (= %s 0))", l.ref))
 		}
+		if fa, ok := in.Addr.(*ssa.FieldAddr); ok {
+			v.locksetField(fr, st, fa, "", true, posStr(v.eng.fset, in.Pos()))
+		}
 		v.store(st, l, v.val(fr, in.Val).T)
 	case *ssa.Convert:
 		v.convert(fr, st, in)
@@ -954,7 +981,7 @@ func (v *FV) execInstr(fr *Frame, st *State, instr ssa.Instruction) {
 		sl := in.Type().Underlying().(*types.Slice)
 		arr := v.elemArray(sl.Elem())
 		h := v.heapGet(st.snap, arr)
-		v.heapSet(st.snap, arr, fmt.Sprintf("(store %s %s ((as const (Array %s %s)) %s))", h, ref, v.idx(), v.sortOf(sl.Elem()), v.zero(sl.Elem())))
+		v.heapSet(st.snap, arr, fmt.Sprintf("(store %s %s %s)", h, ref, v.constArray(v.idx(), v.sortOf(sl.Elem()), v.zero(sl.Elem()))))
 		v.oblige("bounds", "", posStr(v.eng.fset, in.Pos()), "makeslice: len out of range", st.reach, fmt.Sprintf("(and (%s %s %s) (%s %s %s))", v.cmpOp("<=", true), v.idxLit(0), ln, v.cmpOp("<=", true), ln, cp))
 		v.setVal(fr, in, fmt.Sprintf("(mk_slice %s %s %s %s)", ref, v.idxLit(0), ln, cp))
 	case *ssa.MakeMap:
@@ -1018,6 +1045,11 @@ func (v *FV) execInstr(fr *Frame, st *State, instr ssa.Instruction) {
 		v.havocAll(st.snap)
 	case *ssa.Range:
 		fr.vals[in] = TV{T: "0", Ty: in.Type(), Sort: "Int"}
+		if m, ok := in.X.Type().Underlying().(*types.Map); ok {
+			rv := v.rangeVisitedArray(m)
+			ref := v.val(fr, in.X).T
+			v.heapSet(st.snap, rv, fmt.Sprintf("(store %s %s ((as const (Array %s Bool)) false))", v.heapGet(st.snap, rv), ref, v.sortOf(m.Key())))
+		}
 	case *ssa.Next:
 		v.rangeNext(fr, st, in)
 	case *ssa.Send:
@@ -1098,6 +1130,9 @@ func (v *FV) unop(fr *Frame, st *State, in *ssa.UnOp) {
 		}
 		if l.kind == 2 || l.kind == 4 {
 			v.oblige("nil", "", posStr(v.eng.fset, in.Pos()), "nil dereference", st.reach, fmt.Sprintf("(not (= %s 0))", l.ref))
+		}
+		if fa, ok := in.X.(*ssa.FieldAddr); ok {
+			v.locksetField(fr, st, fa, "", false, posStr(v.eng.fset, in.Pos()))
 		}
 		tv := v.setVal(fr, in, v.load(st, l))
 		if tv.Sort == "Int" && v.isRefType(in.Type()) {
@@ -1412,8 +1447,17 @@ func (v *FV) lookup(fr *Frame, st *State, in *ssa.Lookup) {
 func (v *FV) rangeNext(fr *Frame, st *State, in *ssa.Next) {
 	tup := in.Type().(*types.Tuple)
 	var tvs []TV
+	var mapT *types.Map
+	if rg, ok := in.Iter.(*ssa.Range); ok {
+		mapT, _ = rg.X.Type().Underlying().(*types.Map)
+	}
 	for i := 0; i < tup.Len(); i++ {
 		et := tup.At(i).Type()
+		if mapT != nil && i == 1 {
+			et = mapT.Key() // unused components are typed invalid by go/ssa
+		} else if mapT != nil && i == 2 {
+			et = mapT.Elem()
+		}
 		s := v.sortOf(et)
 		n := v.declare(fr.prefix+in.Name()+"_"+fmt.Sprint(i), s)
 		v.assume(st.reach, v.typeFacts(n, et))
@@ -1424,7 +1468,13 @@ func (v *FV) rangeNext(fr *Frame, st *State, in *ssa.Next) {
 		if m, ok := rg.X.Type().Underlying().(*types.Map); ok && len(tvs) == 3 {
 			ref := v.val(fr, rg.X).T
 			dom, val := v.mapArrays(m)
-			facts := []string{fmt.Sprintf("(select (select %s %s) %s)", v.heapGet(st.snap, dom), ref, tvs[1].T)}
+			rv := v.rangeVisitedArray(m)
+			hrv := v.heapGet(st.snap, rv)
+			facts := []string{fmt.Sprintf("(select (select %s %s) %s)", v.heapGet(st.snap, dom), ref, tvs[1].T), fmt.Sprintf("(not (select (select %s %s) %s))", hrv, ref, tvs[1].T)}
+			// exhausted: every key of the map has been visited
+			ks := v.sortOf(m.Key())
+			v.assume(st.reach, fmt.Sprintf("(=> (not %s) (forall ((k %s)) (! (=> (select (select %s %s) k) (select (select %s %s) k)) :pattern ((select (select %s %s) k)))))", tvs[0].T, ks, v.heapGet(st.snap, dom), ref, hrv, ref, v.heapGet(st.snap, dom), ref))
+			v.heapSet(st.snap, rv, fmt.Sprintf("(ite %s (store %s %s (store (select %s %s) %s true)) %s)", tvs[0].T, hrv, ref, hrv, ref, tvs[1].T, hrv))
 			if tvs[2].Sort == v.sortOf(m.Elem()) {
 				facts = append(facts, fmt.Sprintf("(= %s (select (select %s %s) %s))", tvs[2].T, v.heapGet(st.snap, val), ref, tvs[1].T))
 			}
@@ -1436,4 +1486,97 @@ func (v *FV) rangeNext(fr *Frame, st *State, in *ssa.Next) {
 	}
 	fr.tuples[in] = tvs
 	fr.vals[in] = TV{T: "0", Ty: in.Type(), Sort: "Int"}
+}
+
+func (v *FV) rangeVisitedArray(m *types.Map) string {
+	ks := v.sortOf(m.Key())
+	name := "RV_" + mangle(ks)
+	v.regArray(name, fmt.Sprintf("(Array Int (Array %s Bool))", ks))
+	return name
+}
+
+// ---------- lockset: protected locations are only accessed with their lock held
+
+// fieldPathOf resolves v to (owner value, owner struct type, "f" or "f.g") when v is a
+// FieldAddr chain, possibly through one load of a pointer field.
+func fieldPathOf(x ssa.Value) (ssa.Value, types.Type, string) {
+	switch a := x.(type) {
+	case *ssa.FieldAddr:
+		st := a.X.Type().Underlying().(*types.Pointer).Elem()
+		name := st.Underlying().(*types.Struct).Field(a.Field).Name()
+		if o, ot, p := fieldPathOf(a.X); o != nil {
+			return o, ot, p + "." + name
+		}
+		return a.X, st, name
+	case *ssa.UnOp:
+		if a.Op == token.MUL {
+			return fieldPathOf(a.X)
+		}
+	}
+	return nil, nil, ""
+}
+
+func (v *FV) locksetField(fr *Frame, st *State, fa *ssa.FieldAddr, suffix string, write bool, pos string) {
+	owner, ot, path := fieldPathOf(fa)
+	if owner == nil {
+		return
+	}
+	v.locksetCheck(fr, st, owner, ot, path+suffix, write, pos)
+}
+
+func (v *FV) locksetCheck(fr *Frame, st *State, owner ssa.Value, ot types.Type, path string, write bool, pos string) {
+	if v.con != nil && v.con.Unshared {
+		return
+	}
+	tk := typeKey(ot)
+	for key, ld := range v.eng.db.Locks {
+		if ld.Owner != tk {
+			continue
+		}
+		prot := false
+		for _, p := range ld.Protects {
+			if p == path {
+				prot = true
+			}
+		}
+		if !prot {
+			continue
+		}
+		ownerT := v.val(fr, owner).T
+		mode, held := st.held[key+"@"+ownerT]
+		ok := held
+		if write && mode == "r" {
+			ok = false
+			for _, rw := range ld.RWrites {
+				if rw == path {
+					ok = true
+					v.note("lock %s: %s is written under the read lock (declared rwrites): concurrent writers of this location are not excluded", ld.Field, path)
+				}
+			}
+		}
+		what := "read"
+		if write {
+			what = "write"
+		}
+		goal := "true"
+		if !ok {
+			goal = "false"
+		}
+		if v.quiet == 0 && !ok {
+			v.oblige("lockset", mangle(path), pos, fmt.Sprintf("%s of %s.%s requires lock %s held%s", what, shortKey(tk), path, ld.Field, map[bool]string{true: " exclusively", false: ""}[write]), st.reach, goal)
+		} else if v.quiet == 0 {
+			v.locksetOK++
+		}
+	}
+}
+
+// constArray: an array that is zero everywhere. (as const ..) needs a value literal in
+// cvc5, so for symbolic zero values a fresh array with a defining axiom is used.
+func (v *FV) constArray(ksort, esort string, zero Term) Term {
+	if esort == "Bool" || esort == "Int" || strings.HasPrefix(esort, "(_ BitVec") {
+		return fmt.Sprintf("((as const (Array %s %s)) %s)", ksort, esort, zero)
+	}
+	a := v.declare("zeroarr", fmt.Sprintf("(Array %s %s)", ksort, esort))
+	v.emit(fmt.Sprintf("(assert (forall ((i %s)) (! (= (select %s i) %s) :pattern ((select %s i)))))", ksort, a, zero, a))
+	return a
 }
